@@ -520,7 +520,7 @@ def parse_class(header_clean, cls, real='double'):
                 typ, nm, val = norm_type(mm.group(1)), mm.group(2), mm.group(3)
                 ci.consts[nm] = (typ, val.strip() if val else None)
             else:
-                mm = re.match(r'^static\s+const\s+char\s*\*\s*const\s+(\w+)\s*(\[\s*\])?$', t1)
+                mm = re.match(r'^static\s+const\s+char\s*\*\s*const\s+(\w+)\s*(\[\s*\w*\s*\])?$', t1)
                 if mm:
                     ci.consts[mm.group(1)] = ('cstr[]' if mm.group(2) else 'cstr', None)
                 else:
@@ -782,6 +782,8 @@ class Translator:
     # ---- R2 qualified names, R4 real
     def rule_names(self, body):
         body, n = re.subn(r'\bMath::real\b', 'real', body)
+        body, nmm = re.subn(r'\(\s*(?:std::)?(min|max)\s*\)\s*\(', r'\1(', body)
+        self.report.hit('R10.parenthesised_minmax', nmm)
         body, n0 = re.subn(r'\bstd::', '', body)
         self.report.hit('R2.std', n0)
         # template arguments on calls: Math::degree<T>()  -> Math::degree()
